@@ -446,8 +446,39 @@ def rule_twisted_idle_flag(ctx: Ctx) -> RuleResult:
     return rr
 
 
+def rule_idle_removed(ctx: Ctx) -> RuleResult:
+    """'A removed idle callback is not called again' also holds *during* an idle pass: the pass iterates a snapshot
+    (C13.2 demands that), so it has to check, before each call, that the entry is still registered - otherwise a
+    callback removed by an earlier callback of the same pass is called once more although remove_enter_idle()
+    returned True."""
+    p = ctx.p
+    rr = RuleResult("SNAP", "C13.10", "every idle pass calls a callback only if its handle is still in the registry", floor=6)
+    sites = []
+    for key, cq in list(LOOPS.items()) + [("glib", GLIB), ("trio-instrument", EL + "trio_loop._TrioIdleCallbackInstrument")]:
+        try:
+            C = p.cls(cq)
+        except AnalysisError:
+            continue
+        for fi in C.methods.values():
+            for loop in [n for n in fi.own_nodes() if isinstance(n, ast.For) and "idle_callbacks" in ast.unparse(n.iter)]:
+                calls = [c for c in ast.walk(loop) if isinstance(c, ast.Call) and isinstance(c.func, ast.Name) and any(isinstance(t, ast.Name) and t.id == c.func.id for t in ast.walk(loop.target))]
+                if not calls:
+                    continue
+                sites.append((key, fi, loop, calls))
+    for key, fi, loop, calls in sites:
+        reg = next((ast.unparse(x) for x in ast.walk(loop.iter) if isinstance(x, ast.Attribute) and x.attr.endswith("idle_callbacks")), None)
+        guarded = False
+        for n in ast.walk(loop):
+            if isinstance(n, ast.If) and isinstance(n.test, ast.Compare) and isinstance(n.test.ops[0], ast.In) and ast.unparse(n.test.comparators[0]) == reg and any(c in list(ast.walk(n)) for c in calls):
+                guarded = isinstance(n.test.left, ast.Name) and any(isinstance(t, ast.Name) and t.id == n.test.left.id for t in ast.walk(loop.target))
+        rr.inst(f"{short(fi)}", True, {"loop": key, "pass": short(fi), "iterates": norm(loop.iter, 50), "membership_test": guarded})
+        if not guarded:
+            rr.add(finding("SNAP", fi, loop, f"the idle pass of {short(fi)} calls every callback of its snapshot `{norm(loop.iter, 50)}` without checking that the handle is still in {reg}: a callback removed by an earlier callback of the same pass (remove_enter_idle returned True) is called once more", construct="idle pass without membership test"))
+    return rr
+
+
 def run(ctx: Ctx):
-    return [rule_wrap(ctx), rule_snap(ctx), rule_idle_arming(ctx), rule_remove_returns(ctx), rule_select_zmq(ctx), rule_trio_checkpoint(ctx), rule_presence(ctx), rule_handle_unique(ctx), rule_twisted_idle_flag(ctx)]
+    return [rule_wrap(ctx), rule_snap(ctx), rule_idle_arming(ctx), rule_remove_returns(ctx), rule_select_zmq(ctx), rule_trio_checkpoint(ctx), rule_presence(ctx), rule_handle_unique(ctx), rule_twisted_idle_flag(ctx), rule_idle_removed(ctx)]
 
 
 from ..mutants import Mut  # noqa: E402
@@ -455,11 +486,12 @@ from ..mutants import Mut  # noqa: E402
 _S = "urwid/event_loop/select_loop.py"
 _A = "urwid/event_loop/asyncio_loop.py"
 MUTANTS = [
+    Mut("select-idle-pass-calls-removed", "urwid/event_loop/select_loop.py", "SelectEventLoop._entering_idle", "        for handle, callback in list(self._idle_callbacks.items()):\n            # a callback removed by an earlier one in this pass is not called\n            if handle in self._idle_callbacks:\n                callback()", "        for callback in list(self._idle_callbacks.values()):\n            callback()", "SNAP|event_loop.select_loop.SelectEventLoop._entering_idle"),
     Mut("tornado-handle-from-dict-size", "urwid/event_loop/tornado_loop.py", "TornadoEventLoop.watch_file", "        self._max_watch_handle += 1\n        handle = self._max_watch_handle\n", "        handle = len(self._watch_handles) + 1\n", "TAB|event_loop.tornado_loop.TornadoEventLoop.watch_file"),
     Mut("twisted-idle-flag-lowered-in-loop-only", "urwid/event_loop/twisted_loop.py", "TwistedEventLoop._twisted_idle_callback", "            callback()\n        self._twisted_idle_enabled = False", "            self._twisted_idle_enabled = False\n            callback()", "PASS|event_loop.twisted_loop.TwistedEventLoop._twisted_idle_callback"),
     Mut("twisted-wrapper-catches-exception-only", "urwid/event_loop/twisted_loop.py", "TwistedEventLoop.handle_exit", "            except BaseException as exc:", "            except Exception as exc:", "WRAP|event_loop.twisted_loop.TwistedEventLoop.handle_exit"),
     Mut("tornado-fd-zero-not-removed", "urwid/event_loop/tornado_loop.py", "TornadoEventLoop.remove_watch_file", "if (fd := self._watch_handles.pop(handle, None)) is not None:", "if fd := self._watch_handles.pop(handle, None):", "TRUTHY|event_loop.tornado_loop.TornadoEventLoop.remove_watch_file"),
-    Mut("select-idle-live-dict", _S, "SelectEventLoop._entering_idle", "for callback in list(self._idle_callbacks.values()):", "for callback in self._idle_callbacks.values():", "SNAP|"),
+    Mut("select-idle-live-dict", _S, "SelectEventLoop._entering_idle", "for handle, callback in list(self._idle_callbacks.items()):", "for handle, callback in self._idle_callbacks.items():", "SNAP|"),
     Mut("select-remove-alarm-conditional-heapify", _S, "SelectEventLoop.remove_alarm", "            self._alarms.remove(handle)\n            heapq.heapify(self._alarms)\n", "            self._alarms.remove(handle)\n", "SIB|"),
     Mut("asyncio-exc-not-cleared", _A, "AsyncioEventLoop.run", "            exc = self._exc\n            self._exc = None\n", "            exc = self._exc\n", ("ORDER|", "PASS|", "WRAP|")),
     Mut("asyncio-idle-handle-not-reset", _A, "AsyncioEventLoop._exception_handler", "                self._idle_asyncio_handle.cancel()\n                self._idle_asyncio_handle = None", "                self._idle_asyncio_handle.cancel()", "PASS|"),
